@@ -121,9 +121,29 @@ theorem deadline_enters_closing (s' : St) (hpc : s.pc = .pace) (hpast : pastDead
   refine ⟨by intro wt; simp [step, hpast], by simp [step, hpast], ?_⟩
   intro h; simp [step, hpc, hpast] at h; subst h; rfl
 
+/-- **Every hit the pacer released is carried out — none is parked and forgotten**: at every
+moment the hits released are exactly those that hold a tick, are in the critical section, or have
+been given a sequence number; and once the attack has ended (`done`) every released hit has started,
+so the number of hits equals the number of releases (seed `c04l`: a buffered hand-off channel lets a
+released hit sit in the buffer when the loop ends — with no worker it is never carried out). -/
+theorem released_hits_all_carried_out (h : Reachable w m d s) :
+    s.count = s.got + csN s + s.seq ∧
+    (s.pc = .done → s.hits.length = s.count ∧ s.releases.length = s.hits.length ∧ busyHits s = 0) := by
+  have c := core_reachable h
+  refine ⟨c.cnt, fun hd => ?_⟩
+  have hex := c.ex (by rw [hd]; rfl)
+  have hpop := c.pop
+  have hcnt := c.cnt
+  have hrel := (pace_reachable h).rel
+  have hsl := c.seqlen
+  refine ⟨by omega, by omega, by omega⟩
+
 /-! non-vacuity -/
 example : (run (init 1 1 10) [.ready, .paceWait 4, .advance 4, .wake, .tick, .advance 7, .deadline]).map
     (fun s => (s.pc, s.paceLog.map (fun x => (x.1, x.2.1, x.2.2 == some 4)), s.releases, s.count))
     = some (.closeTicks, [(0, 0, true)], [4], 1) := by decide
+example : (run (init 1 1 0) [.ready, .paceWait 0, .wake, .tick, .csEnter, .csLeave, .paceStop, .finish 0, .deliver 0,
+    .closeTicks, .exit, .wgDone, .closeResults, .finalStop]).map
+    (fun s => (s.pc, s.hits.length, s.count, s.releases.length)) = some (.done, 1, 1, 1) := by decide
 
 end Vegeta.Props.C04
